@@ -537,6 +537,15 @@ HTPcreate(filerec_t *file_rec, /* IN: File record to store info in */
     if (file_rec == NULL || (tag == DFTAG_NULL || tag == DFTAG_WILDCARD) || ref == DFREF_WILDCARD)
         HGOTO_ERROR(DFE_ARGS, FAIL);
 
+    /* refuse a tag/ref that is already in the file before a descriptor is claimed (and written) for it */
+    {
+        uint16     base_tag = BASETAG(tag);
+        tag_info **tip_ptr  = (tag_info **)tbbtdfind(file_rec->tag_tree, (void *)&base_tag, NULL);
+
+        if (tip_ptr != NULL && DAget_elem((*tip_ptr)->d, (int)ref) != NULL)
+            HGOTO_ERROR(DFE_DUPDD, FAIL);
+    }
+
     if (HTIfind_dd(file_rec, (uint16)DFTAG_NULL, (uint16)DFTAG_WILDCARD, &dd_ptr, DF_FORWARD) == FAIL) {
         if (HTInew_dd_block(file_rec) == FAIL) {
             HGOTO_ERROR(DFE_NOFREEDD, FAIL);
